@@ -1,13 +1,962 @@
-//! C05 — not yet implemented
-use crate::core::{Ctx, Outcome};
-use serde_json::Value;
+//! C05 — Local L2 order book equals a price->amount map after any event sequence.
+//!
+//! Layer 1 (decides the property): explicit-state BFS to FIXPOINT over the real `OrderBook`. The BFS
+//! state IS the real object (wrapped for hashing); every transition clones it, applies one
+//! `OrderBookEvent` through the real `OrderBook::update` and compares all observers named by the
+//! statement with a reference written from the statement: two `BTreeMap<price, amount>` fed with the
+//! raw (unsorted) level lists of the event in list order.
+//!
+//! Alphabet (per model, see `M::new`): a small price table per side, amounts {0, 5, 7}; `Update`
+//! events with short level lists per side in ANY order, including the same price twice, zero amounts
+//! for absent levels, inserts at front / middle / back; `Snapshot` events with any subset of the
+//! prices at non-zero amounts in unsorted order (well-formed snapshots only: distinct prices, positive
+//! amounts); sequence numbers from a 3-value set so that the sequence goes down, stays and goes up.
+//! A second model uses price/amount literals of different decimal scale (1, 1.0, 1.00) which must be
+//! the same level.
+//!
+//! When a transition violates a rule the search reports it (signature = rule + abstract cause) and continues
+//! from the REFERENCE state (a well-formed book holding the map), so the explored space stays finite under
+//! any defect and a second defect is still found. The derived observers (mid, vw-mid, snapshot) are judged
+//! only when the level lists are right, so one level defect is not repeated under four other names.
+//! The BFS itself is `bfs_stream` below: same semantics / case format as `explore::bfs::run`, but it
+//! does not materialise every (action, successor) pair of a level (10^8 transitions in the thorough tier).
+//!
+//! Layer 2 (routing): events driven through the real `OrderBookL2Manager::run` (manually polled future,
+//! harness-owned channel) with an `OrderBookMapMulti` of two instruments, an un-configured third key and
+//! `Reconnecting` notices: every delivery sequence of length <= d. After every delivery the book of each
+//! configured instrument must equal the real `OrderBook` folded directly over ITS OWN events (book
+//! semantics are layer 1's business), i.e. each event lands in the book of its instrument only, and `run`
+//! must not end while its stream is open.
+//!
+//! Layer 3: configuration sweep over LONG updates (2..=40 levels on one side, thorough up to 100; one price
+//! listed twice at every pair of positions, three filler orders, with / without the level pre-existing) —
+//! `OrderBook::new` sorts the level list with `sort_unstable_by`, which keeps equal prices in list order
+//! only for short lists; the statement quantifies over "duplicates of a price within one update".
+//!
+//! Oracle rules (each from a sentence of the statement):
+//!  R-levels    "holds exactly the price levels a price-to-amount map would hold (zero deletes, any other
+//!              amount sets, deleting an absent level is a no-op), bids strictly descending, asks strictly
+//!              ascending, no price twice"
+//!  R-sequence  "the book's sequence is that of the last applied event"
+//!  R-mid       "best bid/ask, mid-price ... are those of that map" (two-sided: (bb+ba)/2 exactly; one-sided:
+//!              the statement does not define a mid price -> None or the only best price accepted; empty: None)
+//!  R-vwmp      "volume-weighted mid-price" of the map's best levels (either weighting convention accepted:
+//!              micro-price (pb*qa+pa*qb)/(qa+qb) or (pb*qb+pa*qa)/(qa+qb); it must come from the BEST levels)
+//!  R-snapshot  "depth-limited snapshots are those of that map": snapshot(d) == first d levels per side, same
+//!              sequence, for d in 0..=5
+//! `time_engine` is varied in the inputs but never judged (the statement does not mention it).
 
-pub fn run(_ctx: &Ctx) -> Outcome {
-    eprintln!("MACHINERY: C05 not implemented");
-    std::process::exit(2)
+use crate::core::{Ctx, Distinct, Outcome, Samples, hash_of};
+use crate::explore::{
+    bfs::{self, BfsStats, Model, Viol},
+    env,
+    seq::{self, SeqModel},
+};
+use barter_data::{
+    books::{
+        Level, OrderBook,
+        manager::OrderBookL2Manager,
+        map::{OrderBookMap, OrderBookMapMulti},
+    },
+    event::MarketEvent,
+    streams::{consumer::MarketStreamEvent, reconnect::Event},
+    subscription::book::OrderBookEvent,
+};
+use barter_instrument::{exchange::ExchangeId, instrument::InstrumentIndex};
+use chrono::{DateTime, TimeZone, Utc};
+use fnv::FnvHashMap;
+use parking_lot::RwLock;
+use rayon::prelude::*;
+use rust_decimal::Decimal;
+use serde::{Deserialize, Serialize};
+use serde_json::{Value, json};
+use std::{
+    collections::{BTreeMap, HashMap, HashSet},
+    hash::{Hash, Hasher},
+    str::FromStr,
+    sync::Arc,
+    task::Poll,
+};
+
+// ------------------------------------------------------------------------------------------------
+// Alphabet
+// ------------------------------------------------------------------------------------------------
+
+const MAXL: usize = 4;
+
+/// One event. Levels are (price index, amount index) into the model's tables, in LIST ORDER
+/// (`nb`/`na` = number of used entries of `b`/`a`).
+#[derive(Clone, Copy, Debug, PartialEq, Eq, Hash, Serialize, Deserialize)]
+pub struct Act {
+    pub snap: bool,
+    pub seq: u8,
+    pub nb: u8,
+    pub b: [(u8, u8); MAXL],
+    pub na: u8,
+    pub a: [(u8, u8); MAXL],
 }
 
-pub fn replay(_ctx: &Ctx, _case: &Value) {
-    eprintln!("MACHINERY: C05 not implemented");
-    std::process::exit(2)
+impl Act {
+    fn new(snap: bool, seq: u8, b: &[(u8, u8)], a: &[(u8, u8)]) -> Self {
+        let mut x = Act { snap, seq, nb: b.len() as u8, b: [(0, 0); MAXL], na: a.len() as u8, a: [(0, 0); MAXL] };
+        x.b[..b.len()].copy_from_slice(b);
+        x.a[..a.len()].copy_from_slice(a);
+        x
+    }
+    fn bids(&self) -> &[(u8, u8)] {
+        &self.b[..self.nb as usize]
+    }
+    fn asks(&self) -> &[(u8, u8)] {
+        &self.a[..self.na as usize]
+    }
+}
+
+/// The BFS state is the real object; `Hash` over exactly the fields `Eq` compares.
+#[derive(Clone, PartialEq, Eq, Debug)]
+pub struct St(pub OrderBook);
+
+impl Hash for St {
+    fn hash<H: Hasher>(&self, h: &mut H) {
+        self.0.sequence.hash(h);
+        self.0.time_engine.hash(h);
+        self.0.bids().levels().hash(h);
+        0xffu8.hash(h);
+        self.0.asks().levels().hash(h);
+    }
+}
+
+pub struct M {
+    bid_px: Vec<Decimal>,
+    ask_px: Vec<Decimal>,
+    amts: Vec<Decimal>, // index 0 (and any other entry that is_zero) deletes
+    acts: Vec<Act>,
+}
+
+fn d(s: &str) -> Decimal {
+    Decimal::from_str(s).unwrap()
+}
+
+fn time_of(seq: u8) -> Option<DateTime<Utc>> {
+    // varied, never judged
+    if seq % 2 == 1 { None } else { Some(Utc.timestamp_opt(1_700_000_000 + seq as i64, 0).unwrap()) }
+}
+
+/// all lists of length `len` over `syms`
+fn lists(syms: &[(u8, u8)], len: usize) -> Vec<Vec<(u8, u8)>> {
+    let mut out: Vec<Vec<(u8, u8)>> = vec![vec![]];
+    for _ in 0..len {
+        out = out
+            .into_iter()
+            .flat_map(|l| syms.iter().map(move |s| { let mut l2 = l.clone(); l2.push(*s); l2 }))
+            .collect();
+    }
+    out
+}
+
+/// Snapshot side menus: every subset of the price indices with a non-zero amount pattern, listed in a
+/// scrambled (neither ascending nor descending where possible) order.
+fn snapshot_sides(n_px: usize, nonzero_amts: &[u8], distinct_value: &dyn Fn(u8) -> usize) -> Vec<Vec<(u8, u8)>> {
+    let mut out = Vec::new();
+    for mask in 0u32..(1 << n_px) {
+        let idx: Vec<u8> = (0..n_px as u8).filter(|i| mask & (1 << i) != 0).collect();
+        // well-formed: no two entries with numerically equal price
+        let mut vals = HashSet::new();
+        if !idx.iter().all(|i| vals.insert(distinct_value(*i))) {
+            continue;
+        }
+        for pat in 0..nonzero_amts.len().min(2) {
+            let mut l: Vec<(u8, u8)> = idx
+                .iter()
+                .enumerate()
+                .map(|(k, p)| (*p, nonzero_amts[(k + pat) % nonzero_amts.len()]))
+                .collect();
+            // scramble: rotate by one and swap the ends -> for 3 levels [b,c,a] etc.
+            if l.len() > 1 {
+                l.rotate_left(1);
+            }
+            if l.len() > 2 && pat == 1 {
+                l.reverse();
+            }
+            if !out.contains(&l) {
+                out.push(l);
+            }
+        }
+    }
+    out
+}
+
+impl M {
+    /// `one_side_max`: max list length when the other side is empty; `total_max`: max total number of
+    /// levels when both sides are used.
+    fn new(bid_px: &[&str], ask_px: &[&str], amts: &[&str], seqs: &[u8], total_max: usize, one_side_max: usize) -> Self {
+        let bid_px: Vec<Decimal> = bid_px.iter().map(|s| d(s)).collect();
+        let ask_px: Vec<Decimal> = ask_px.iter().map(|s| d(s)).collect();
+        let amts: Vec<Decimal> = amts.iter().map(|s| d(s)).collect();
+        let syms = |n: usize| -> Vec<(u8, u8)> {
+            (0..n as u8).flat_map(|p| (0..amts.len() as u8).map(move |q| (p, q))).collect()
+        };
+        let (bs, as_) = (syms(bid_px.len()), syms(ask_px.len()));
+        let mut acts = Vec::new();
+        // updates
+        for nb in 0..=one_side_max.min(MAXL) {
+            for na in 0..=one_side_max.min(MAXL) {
+                let both = nb > 0 && na > 0;
+                if both && nb + na > total_max {
+                    continue;
+                }
+                for b in lists(&bs, nb) {
+                    for a in lists(&as_, na) {
+                        for s in seqs {
+                            acts.push(Act::new(false, *s, &b, &a));
+                        }
+                    }
+                }
+            }
+        }
+        // snapshots: (all bid menus x 4 ask menus) + (4 bid menus x all ask menus)
+        let nonzero: Vec<u8> = (0..amts.len() as u8).filter(|q| !amts[*q as usize].is_zero()).collect();
+        let bv = |i: u8| -> usize { bid_px.iter().position(|p| *p == bid_px[i as usize]).unwrap() };
+        let av = |i: u8| -> usize { ask_px.iter().position(|p| *p == ask_px[i as usize]).unwrap() };
+        let sb = snapshot_sides(bid_px.len(), &nonzero, &bv);
+        let sa = snapshot_sides(ask_px.len(), &nonzero, &av);
+        let few = |v: &Vec<Vec<(u8, u8)>>| -> Vec<Vec<(u8, u8)>> {
+            let mut f = vec![v[0].clone(), v[1].clone(), v[v.len() - 1].clone(), v[v.len() - 2].clone()];
+            f.dedup();
+            f
+        };
+        let (fb, fa) = (few(&sb), few(&sa));
+        let mut snaps: Vec<(Vec<(u8, u8)>, Vec<(u8, u8)>)> = Vec::new();
+        for b in &sb {
+            for a in &fa {
+                snaps.push((b.clone(), a.clone()));
+            }
+        }
+        for b in &fb {
+            for a in &sa {
+                if !snaps.contains(&(b.clone(), a.clone())) {
+                    snaps.push((b.clone(), a.clone()));
+                }
+            }
+        }
+        for (b, a) in snaps {
+            for s in seqs {
+                acts.push(Act::new(true, *s, &b, &a));
+            }
+        }
+        Self { bid_px, ask_px, amts, acts }
+    }
+
+    fn by_label(label: &str) -> Self {
+        match label {
+            // 3 prices per side; lists: total <= 2 over both sides, or <= 3 on one side alone
+            "p3" => M::new(&["1", "2", "3"], &["4", "5", "6"], &["0", "5", "7"], &[1, 2, 3], 2, 3),
+            // 4 prices per side (more binary-search paths)
+            "p4" => M::new(&["1", "2", "3", "4"], &["5", "6", "7", "8"], &["0", "5", "7"], &[1, 2, 3], 2, 3),
+            // decimal scales: 1 / 1.0 / 1.00 are one level; 0 / 0.00 both delete; books may cross (2 on both sides)
+            "scales" => M::new(&["1", "1.0", "1.00", "2"], &["2.0", "3", "3.00"], &["0", "0.00", "5", "5.0", "7"], &[1, 2], 2, 2),
+            other => panic!("C05: unknown model label {other}"),
+        }
+    }
+
+    fn levels(&self, px: &[Decimal], l: &[(u8, u8)]) -> Vec<Level> {
+        l.iter().map(|(p, q)| Level::new(px[*p as usize], self.amts[*q as usize])).collect()
+    }
+
+    /// The event exactly as a connector builds it: `OrderBook::new(seq, time, unsorted bids, unsorted asks)`.
+    fn event(&self, a: &Act) -> OrderBookEvent {
+        let book = OrderBook::new(
+            a.seq as u64,
+            time_of(a.seq),
+            self.levels(&self.bid_px, a.bids()),
+            self.levels(&self.ask_px, a.asks()),
+        );
+        if a.snap { OrderBookEvent::Snapshot(book) } else { OrderBookEvent::Update(book) }
+    }
+
+    fn describe(&self, a: &Act) -> String {
+        let f = |px: &[Decimal], l: &[(u8, u8)]| {
+            l.iter().map(|(p, q)| format!("{}@{}", self.amts[*q as usize], px[*p as usize])).collect::<Vec<_>>().join(",")
+        };
+        format!(
+            "{}(seq={}, bids=[{}], asks=[{}])",
+            if a.snap { "Snapshot" } else { "Update" },
+            a.seq,
+            f(&self.bid_px, a.bids()),
+            f(&self.ask_px, a.asks())
+        )
+    }
+}
+
+// ------------------------------------------------------------------------------------------------
+// Reference (the statement) and oracle
+// ------------------------------------------------------------------------------------------------
+
+type PMap = BTreeMap<Decimal, Decimal>;
+
+fn to_map(levels: &[Level]) -> PMap {
+    levels.iter().map(|l| (l.price, l.amount)).collect()
+}
+
+/// "an update with amount zero deletes the level, any other amount sets it, deleting an absent level is
+/// a no-op" — applied to the raw list in list order.
+fn apply_update(map: &mut PMap, levels: &[Level]) {
+    for l in levels {
+        if l.amount.is_zero() {
+            map.remove(&l.price);
+        } else {
+            map.insert(l.price, l.amount);
+        }
+    }
+}
+
+fn has_dup_price(levels: &[Level]) -> bool {
+    let mut s = HashSet::new();
+    !levels.iter().all(|l| s.insert(l.price))
+}
+
+/// Compare one side of the real book with the map (already in the required order).
+fn side_cause(got: &[Level], want: &[(Decimal, Decimal)], descending: bool) -> Option<&'static str> {
+    let g: Vec<(Decimal, Decimal)> = got.iter().map(|l| (l.price, l.amount)).collect();
+    if g == want {
+        return None;
+    }
+    let mut seen = HashSet::new();
+    if !g.iter().all(|(p, _)| seen.insert(*p)) {
+        return Some("price-appears-twice");
+    }
+    let sorted = g.windows(2).all(|w| if descending { w[0].0 > w[1].0 } else { w[0].0 < w[1].0 });
+    if !sorted {
+        return Some("not-strictly-ordered");
+    }
+    if g.iter().any(|(_, q)| q.is_zero()) {
+        return Some("zero-amount-level-kept");
+    }
+    let wm: PMap = want.iter().cloned().collect();
+    let gm: PMap = g.iter().cloned().collect();
+    if gm.keys().any(|p| !wm.contains_key(p)) {
+        return Some("level-not-in-map");
+    }
+    if wm.keys().any(|p| !gm.contains_key(p)) {
+        return Some("level-missing");
+    }
+    Some("wrong-amount")
+}
+
+/// All observers of the statement on `book`, against the maps `wb`/`wa` and the expected sequence.
+fn check_book(kind: &str, _tag: &str, book: &OrderBook, wb: &PMap, wa: &PMap, want_seq: u64, ctx_txt: &dyn Fn() -> String, out: &mut Vec<Viol>) {
+    let want_bids: Vec<(Decimal, Decimal)> = wb.iter().rev().map(|(p, q)| (*p, *q)).collect();
+    let want_asks: Vec<(Decimal, Decimal)> = wa.iter().map(|(p, q)| (*p, *q)).collect();
+    // R-levels
+    if let Some(c) = side_cause(book.bids().levels(), &want_bids, true) {
+        out.push((
+            format!("C05/levels/bids/{kind}/{c}"),
+            format!("{} -> bids={:?}, map says {:?}", ctx_txt(), book.bids().levels(), want_bids),
+        ));
+    }
+    if let Some(c) = side_cause(book.asks().levels(), &want_asks, false) {
+        out.push((
+            format!("C05/levels/asks/{kind}/{c}"),
+            format!("{} -> asks={:?}, map says {:?}", ctx_txt(), book.asks().levels(), want_asks),
+        ));
+    }
+    let levels_ok = out.is_empty();
+    // R-sequence
+    if book.sequence != want_seq {
+        out.push((
+            format!("C05/sequence/{kind}/not-that-of-last-event"),
+            format!("{} -> sequence={}, last applied event has {}", ctx_txt(), book.sequence, want_seq),
+        ));
+    }
+    if !levels_ok {
+        return; // the derived observers would only repeat the level defect under other names
+    }
+    // R-mid / R-vwmp from the MAP's best levels
+    let (bb, ba) = (want_bids.first().copied(), want_asks.first().copied());
+    let shape = match (bb, ba) {
+        (Some(_), Some(_)) => "two-sided",
+        (Some(_), None) | (None, Some(_)) => "one-sided",
+        (None, None) => "empty",
+    };
+    let (mid_ok, vw_ok): (Vec<Option<Decimal>>, Vec<Option<Decimal>>) = match (bb, ba) {
+        (Some(b), Some(a)) => (
+            vec![Some((b.0 + a.0) / Decimal::TWO)],
+            vec![
+                Some((b.0 * a.1 + a.0 * b.1) / (b.1 + a.1)),
+                Some((b.0 * b.1 + a.0 * a.1) / (b.1 + a.1)),
+            ],
+        ),
+        (Some(x), None) | (None, Some(x)) => (vec![None, Some(x.0)], vec![None, Some(x.0)]),
+        (None, None) => (vec![None], vec![None]),
+    };
+    let mid = book.mid_price();
+    if !mid_ok.contains(&mid) {
+        out.push((
+            format!("C05/mid-price/{shape}"),
+            format!("{} -> mid_price={mid:?}, map allows {mid_ok:?} (best bid {bb:?}, best ask {ba:?})", ctx_txt()),
+        ));
+    }
+    let vw = book.volume_weighed_mid_price();
+    if !vw_ok.contains(&vw) {
+        out.push((
+            format!("C05/volume-weighted-mid-price/{shape}"),
+            format!("{} -> volume_weighed_mid_price={vw:?}, map allows {vw_ok:?} (best bid {bb:?}, best ask {ba:?})", ctx_txt()),
+        ));
+    }
+    // R-snapshot
+    for depth in 0..=5usize {
+        let s = book.snapshot(depth);
+        for (side, got, want) in [
+            ("bids", s.bids().levels(), &want_bids),
+            ("asks", s.asks().levels(), &want_asks),
+        ] {
+            let w: Vec<(Decimal, Decimal)> = want.iter().take(depth).cloned().collect();
+            let g: Vec<(Decimal, Decimal)> = got.iter().map(|l| (l.price, l.amount)).collect();
+            if g != w {
+                let c = if g.len() > w.len() { "too-many-levels" } else if g.len() < w.len() { "too-few-levels" } else { "wrong-levels" };
+                out.push((
+                    format!("C05/snapshot-depth/{side}/{c}"),
+                    format!("{} -> snapshot({depth}).{side}={g:?}, first {depth} of the map are {w:?}", ctx_txt()),
+                ));
+            }
+        }
+        if s.sequence != book.sequence {
+            out.push((
+                "C05/snapshot-depth/sequence-differs-from-book".to_string(),
+                format!("{} -> snapshot({depth}).sequence={} book.sequence={}", ctx_txt(), s.sequence, book.sequence),
+            ));
+        }
+    }
+}
+
+impl Model for M {
+    type State = St;
+    type Action = Act;
+
+    fn init(&self) -> Vec<St> {
+        vec![St(OrderBook::default())]
+    }
+
+    fn actions(&self, _s: &St) -> Vec<Act> {
+        self.acts.clone()
+    }
+
+    fn step(&self, s: &St, a: &Act, out: &mut Vec<Viol>) -> Option<St> {
+        // reference: maps of the pre-state (re-synchronised with the implementation), then the event
+        let mut wb = to_map(s.0.bids().levels());
+        let mut wa = to_map(s.0.asks().levels());
+        let raw_b = self.levels(&self.bid_px, a.bids());
+        let raw_a = self.levels(&self.ask_px, a.asks());
+        if a.snap {
+            wb = to_map(&raw_b);
+            wa = to_map(&raw_a);
+        } else {
+            apply_update(&mut wb, &raw_b);
+            apply_update(&mut wa, &raw_a);
+        }
+        // implementation (a panic of the book on an in-alphabet event means it does not hold the map)
+        let kind = if a.snap { "snapshot" } else { "update" };
+        let applied = std::panic::catch_unwind(std::panic::AssertUnwindSafe(|| {
+            let mut book = s.0.clone();
+            book.update(self.event(a));
+            book
+        }));
+        let Ok(book) = applied else {
+            out.push((format!("C05/panic/{kind}"), format!("OrderBook::update panicked: book {:?} + {}", s.0, self.describe(a))));
+            return None; // the pre-state stays explored through the other actions
+        };
+        let tag = "";
+        let txt = || format!("book(seq={}, bids={:?}, asks={:?}) + {}", s.0.sequence, s.0.bids().levels(), s.0.asks().levels(), self.describe(a));
+        let mut v = Vec::new();
+        if std::panic::catch_unwind(std::panic::AssertUnwindSafe(|| check_book(kind, tag, &book, &wb, &wa, a.seq as u64, &txt, &mut v))).is_err() {
+            v.push((format!("C05/panic/observer-after-{kind}"), format!("an observer panicked: {}", txt())));
+        }
+        if v.is_empty() {
+            Some(St(book))
+        } else {
+            // continue from the reference state (what the map holds): keeps the explored space finite under
+            // any defect and lets a second, different defect still be found
+            out.extend(v);
+            Some(St(OrderBook::new(
+                a.seq as u64,
+                time_of(a.seq),
+                wb.iter().map(|(p, q)| Level::new(*p, *q)).collect::<Vec<_>>(),
+                wa.iter().map(|(p, q)| Level::new(*p, *q)).collect::<Vec<_>>(),
+            )))
+        }
+    }
+
+    fn impl_hash(&self, s: &St) -> Option<u64> {
+        Some(hash_of(s))
+    }
+}
+
+// ------------------------------------------------------------------------------------------------
+// Memory-lean BFS (same semantics and case format as explore::bfs::run, which materialises every
+// (action, successor) pair of a level — too much for 10^8 transitions). Level-synchronous, the
+// frontier is expanded in fixed-size chunks in frontier order; each worker only returns successors
+// not yet in the index, and per-signature first violation + count. Deterministic.
+// ------------------------------------------------------------------------------------------------
+
+struct Expanded<A, S> {
+    transitions: u64,
+    viol_steps: u64,
+    viols: BTreeMap<String, (u64, A, String)>,
+    fresh: Vec<(A, S)>,
+}
+
+fn bfs_stream<Mo: Model>(ctx: &Ctx, model: &Mo, label: &str, max_states: usize) -> BfsStats {
+    let mut stats = BfsStats::default();
+    let mut index: HashMap<Mo::State, u32> = HashMap::new();
+    let mut nodes: Vec<(u32, Option<Mo::Action>)> = Vec::new();
+    let mut impl_hashes = HashSet::new();
+    let mut frontier: Vec<(u32, Mo::State)> = Vec::new();
+    let mut seen_sigs: HashSet<String> = HashSet::new();
+    for s in model.init() {
+        if !index.contains_key(&s) {
+            let id = nodes.len() as u32;
+            index.insert(s.clone(), id);
+            nodes.push((0, None));
+            impl_hashes.extend(model.impl_hash(&s));
+            frontier.push((id, s));
+        }
+    }
+    let path_of = |nodes: &Vec<(u32, Option<Mo::Action>)>, mut id: u32| -> Vec<Mo::Action> {
+        let mut rev = Vec::new();
+        while let (p, Some(a)) = &nodes[id as usize] {
+            rev.push(a.clone());
+            id = *p;
+        }
+        rev.reverse();
+        rev
+    };
+    stats.frontier_sizes.push(frontier.len());
+    let mut depth = 0usize;
+    while !frontier.is_empty() && !stats.capped {
+        let mut next_frontier = Vec::new();
+        for chunk in frontier.chunks(64) {
+            let idx = &index;
+            let expanded: Vec<Expanded<Mo::Action, Mo::State>> = chunk
+                .par_iter()
+                .map(|(_, s)| {
+                    let mut e = Expanded { transitions: 0, viol_steps: 0, viols: BTreeMap::new(), fresh: Vec::new() };
+                    let mut local: HashSet<Mo::State> = HashSet::new();
+                    for a in model.actions(s) {
+                        let mut out = Vec::new();
+                        let next = model.step(s, &a, &mut out);
+                        e.transitions += 1;
+                        if !out.is_empty() {
+                            e.viol_steps += 1;
+                            for (sig, detail) in out {
+                                e.viols.entry(sig).or_insert_with(|| (0, a.clone(), detail)).0 += 1;
+                            }
+                        }
+                        if let Some(ns) = next {
+                            if !idx.contains_key(&ns) && local.insert(ns.clone()) {
+                                e.fresh.push((a, ns));
+                            }
+                        }
+                    }
+                    e
+                })
+                .collect();
+            for ((pid, _), e) in chunk.iter().zip(expanded) {
+                stats.transitions += e.transitions;
+                stats.oracle_violation_steps += e.viol_steps;
+                for (sig, (n, a, detail)) in e.viols {
+                    let mut n = n;
+                    if seen_sigs.insert(sig.clone()) {
+                        let mut path = path_of(&nodes, *pid);
+                        path.push(a);
+                        ctx.violate(sig.clone(), detail, json!({"engine": "bfs", "label": label, "init": 0, "path": path}));
+                        n -= 1;
+                    }
+                    for _ in 0..n {
+                        ctx.violations.bump(&sig);
+                    }
+                }
+                for (a, ns) in e.fresh {
+                    if index.contains_key(&ns) {
+                        continue;
+                    }
+                    if nodes.len() >= max_states {
+                        stats.capped = true;
+                        continue;
+                    }
+                    let id = nodes.len() as u32;
+                    index.insert(ns.clone(), id);
+                    nodes.push((*pid, Some(a)));
+                    impl_hashes.extend(model.impl_hash(&ns));
+                    next_frontier.push((id, ns));
+                }
+            }
+        }
+        depth += 1;
+        stats.depth_completed = depth;
+        if !next_frontier.is_empty() {
+            stats.max_depth = depth;
+            stats.frontier_sizes.push(next_frontier.len());
+        }
+        frontier = next_frontier;
+    }
+    stats.fixpoint = frontier.is_empty() && !stats.capped;
+    stats.states = nodes.len();
+    stats.distinct_impl_states = impl_hashes.len();
+    for id in [nodes.len() - 1, nodes.len() / 2] {
+        stats.samples.push(json!({"label": label, "init": 0, "path": path_of(&nodes, id as u32)}));
+    }
+    stats
+}
+
+// ------------------------------------------------------------------------------------------------
+// Layer 2: OrderBookL2Manager::run with two instruments (E-SEQ over delivery sequences, the manager
+// future rebuilt and the history re-delivered for every step because the manager is not Clone).
+// ------------------------------------------------------------------------------------------------
+
+#[derive(Clone, Copy, Debug, PartialEq, Eq, Serialize, Deserialize)]
+pub enum MSym {
+    /// event `ev` of the manager menu for instrument key `inst` (0, 1 configured; 2 not configured)
+    Item { inst: u8, ev: u8 },
+    Reconnecting,
+}
+
+pub struct MgrModel {
+    m: M,
+    menu: Vec<Act>,
+}
+
+impl MgrModel {
+    fn new() -> Self {
+        let m = M::by_label("p3");
+        let menu = vec![
+            Act::new(true, 1, &[(0, 1), (2, 2)], &[(1, 1)]),          // snapshot, unsorted bids
+            Act::new(true, 2, &[], &[]),                               // empty snapshot
+            Act::new(false, 2, &[(1, 0), (2, 1)], &[]),                // delete absent/present + set
+            Act::new(false, 3, &[(0, 2)], &[(0, 0), (1, 2)]),          // both sides
+            Act::new(false, 1, &[(2, 0)], &[(2, 1), (2, 2)]),          // sequence goes down, price twice
+        ];
+        Self { m, menu }
+    }
+
+    /// Deliver `syms` one by one to a fresh real manager; returns the two configured books after the
+    /// last delivery and whether `run` was still pending (it must only end when the stream ends).
+    fn drive(&self, syms: &[MSym]) -> ([OrderBook; 2], bool, bool) {
+        let books: Vec<Arc<RwLock<OrderBook>>> = (0..2).map(|_| Arc::new(RwLock::new(OrderBook::default()))).collect();
+        let mut map = FnvHashMap::default();
+        map.insert(InstrumentIndex(0), books[0].clone());
+        map.insert(InstrumentIndex(1), books[1].clone());
+        let (tx, rx) = futures::channel::mpsc::unbounded::<MarketStreamEvent<InstrumentIndex, OrderBookEvent>>();
+        let manager = OrderBookL2Manager { stream: rx, books: OrderBookMapMulti::new(map) };
+        let mut fut = Box::pin(manager.run());
+        let (flag, waker) = env::flag_waker();
+        let mut pending = true;
+        for s in syms {
+            let ev = match s {
+                MSym::Reconnecting => Event::Reconnecting(ExchangeId::BinanceSpot),
+                MSym::Item { inst, ev } => Event::Item(MarketEvent {
+                    time_exchange: Utc.timestamp_opt(1_700_000_000, 0).unwrap(),
+                    time_received: Utc.timestamp_opt(1_700_000_000, 0).unwrap(),
+                    exchange: ExchangeId::BinanceSpot,
+                    instrument: InstrumentIndex(*inst as usize),
+                    kind: self.m.event(&self.menu[*ev as usize]),
+                }),
+            };
+            if !pending {
+                return (Default::default(), false, false); // `run` had returned before this delivery (judged on the step where it did)
+            }
+            let _ = tx.unbounded_send(ev);
+            pending &= env::poll_quiesce(fut.as_mut(), &flag, &waker).is_pending();
+        }
+        let snapshot = [books[0].read().clone(), books[1].read().clone()];
+        drop(tx);
+        let ended = !pending || env::poll_quiesce(fut.as_mut(), &flag, &waker).is_ready();
+        (snapshot, pending, ended)
+    }
+}
+
+impl SeqModel for MgrModel {
+    /// Reference: per configured instrument the real `OrderBook` folded directly over ITS events (the book
+    /// semantics themselves are judged by layer 1; this layer judges the routing by the manager).
+    type State = [OrderBook; 2];
+    type Sym = MSym;
+
+    fn init(&self) -> Self::State {
+        Default::default()
+    }
+
+    fn alphabet(&self, _s: &Self::State, _h: &[MSym]) -> Vec<MSym> {
+        let mut v = vec![MSym::Reconnecting];
+        for inst in 0..3u8 {
+            for ev in 0..self.menu.len() as u8 {
+                v.push(MSym::Item { inst, ev });
+            }
+        }
+        v
+    }
+
+    fn step(&self, s: &mut Self::State, sym: &MSym, hist: &[MSym], out: &mut Vec<Viol>) {
+        if let MSym::Item { inst, ev } = sym {
+            if (*inst as usize) < 2 {
+                s[*inst as usize].update(self.m.event(&self.menu[*ev as usize]));
+            }
+        }
+        let mut all: Vec<MSym> = hist.to_vec();
+        all.push(*sym);
+        let Ok((books, pending, _ended)) = std::panic::catch_unwind(std::panic::AssertUnwindSafe(|| self.drive(&all))) else {
+            out.push(("C05/manager/panic".to_string(), format!("manager or book panicked on delivery {all:?}")));
+            return;
+        };
+        if !pending && !_ended {
+            return; // the run ended on an earlier delivery of this sequence: already reported there
+        }
+        let what = match sym {
+            MSym::Reconnecting => "reconnecting-notice".to_string(),
+            MSym::Item { inst, .. } if *inst >= 2 => "event-for-unconfigured-instrument".to_string(),
+            MSym::Item { .. } => "event-for-configured-instrument".to_string(),
+        };
+        for i in 0..2usize {
+            if books[i] != s[i] {
+                let own = matches!(sym, MSym::Item { inst, .. } if *inst as usize == i);
+                out.push((
+                    format!("C05/manager/{what}/{}", if own { "own-book-not-updated-with-the-event" } else { "other-book-changed" }),
+                    format!("delivery {all:?}: book of instrument {i} is {:?}, its own events applied directly give {:?}", books[i], s[i]),
+                ));
+                s[i] = books[i].clone(); // re-synchronise: report a routing error once, on the step that causes it
+            }
+        }
+        if !pending {
+            // termination on stream END is not judged; ending while the stream is open loses every later event
+            out.push((format!("C05/manager/{what}/run-ended-while-stream-open"), format!("delivery {all:?}")));
+        }
+    }
+
+    fn final_hash(&self, s: &Self::State) -> u64 {
+        hash_of(&(St(s[0].clone()), St(s[1].clone())))
+    }
+}
+
+// ------------------------------------------------------------------------------------------------
+// Layer 3: long updates with one repeated price (sorting of the level list inside OrderBook::new)
+// ------------------------------------------------------------------------------------------------
+
+#[derive(Clone, Debug, Serialize, Deserialize)]
+pub struct LongCase {
+    pub asks: bool,
+    pub n: usize,      // number of levels in the update
+    pub i: usize,      // positions of the two entries with the repeated price
+    pub j: usize,
+    pub order: u8,     // 0 ascending fillers, 1 descending, 2 zig-zag
+    pub amounts: (u8, u8), // amounts (index into [0,5,7]) of the first / second entry of the repeated price
+    pub preloaded: bool, // the repeated price already exists in the book
+}
+
+fn long_levels(c: &LongCase) -> Vec<Level> {
+    let amts = [d("0"), d("5"), d("7")];
+    // distinct filler prices 1000, 1001, ..; the repeated price 1010.5 sorts into the middle of them
+    let src: Vec<i64> = (0..(c.n as i64 - 2)).map(|k| 1000 + k).collect();
+    let fill: Vec<i64> = match c.order {
+        1 => src.iter().rev().copied().collect(),
+        2 => {
+            let (lo, hi) = src.split_at(src.len() / 2);
+            let mut z: Vec<i64> = lo.iter().zip(hi.iter().rev()).flat_map(|(a, b)| [*a, *b]).collect();
+            if src.len() % 2 == 1 {
+                z.push(hi[0]);
+            }
+            z
+        }
+        _ => src.clone(),
+    };
+    let rep = d("1010.5");
+    let mut out: Vec<Level> = Vec::with_capacity(c.n);
+    let mut f = fill.into_iter();
+    for k in 0..c.n {
+        if k == c.i {
+            out.push(Level::new(rep, amts[c.amounts.0 as usize]));
+        } else if k == c.j {
+            out.push(Level::new(rep, amts[c.amounts.1 as usize]));
+        } else {
+            out.push(Level::new(Decimal::from(f.next().unwrap()), d("3")));
+        }
+    }
+    out
+}
+
+fn long_check(c: &LongCase, out: &mut Vec<Viol>) -> u64 {
+    let raw = long_levels(c);
+    let pre: Vec<Level> = if c.preloaded { vec![Level::new(d("1010.5"), d("9"))] } else { vec![] };
+    let mut book = if c.asks {
+        OrderBook::new(1, None, Vec::<Level>::new(), pre.clone())
+    } else {
+        OrderBook::new(1, None, pre.clone(), Vec::<Level>::new())
+    };
+    let mut want = to_map(&pre);
+    apply_update(&mut want, &raw);
+    let ev = if c.asks {
+        OrderBook::new(2, None, Vec::<Level>::new(), raw)
+    } else {
+        OrderBook::new(2, None, raw, Vec::<Level>::new())
+    };
+    book.update(OrderBookEvent::Update(ev));
+    let empty = PMap::new();
+    let (wb, wa) = if c.asks { (&empty, &want) } else { (&want, &empty) };
+    let rep = d("1010.5");
+    let got_side: Vec<Level> = if c.asks { book.asks().levels().to_vec() } else { book.bids().levels().to_vec() };
+    let txt = || {
+        format!(
+            "update of {} {} levels, price {rep} listed at positions {} and {} with amounts {:?} (book held it: {}): book has {:?} at that price, a map fed the list in order has {:?}",
+            c.n, if c.asks { "ask" } else { "bid" }, c.i, c.j, (raw_amt(c, 0), raw_amt(c, 1)), c.preloaded,
+            got_side.iter().find(|l| l.price == rep).map(|l| l.amount), want.get(&rep)
+        )
+    };
+    let mut v = Vec::new();
+    check_book("update", "", &book, wb, wa, 2, &|| String::new(), &mut v);
+    // keep one rule: the level lists (the derived observers would only repeat it)
+    v.retain(|(s, _)| s.starts_with("C05/levels/"));
+    if !v.is_empty() {
+        // abstract cause: is the book what the map would hold had the two entries been applied in the
+        // opposite order (the sort inside OrderBook::new does not keep equal prices in list order)?
+        let mut swapped_raw = long_levels(c);
+        swapped_raw.swap(c.i, c.j);
+        let mut swapped = to_map(&pre);
+        apply_update(&mut swapped, &swapped_raw);
+        let sw: Vec<(Decimal, Decimal)> = if c.asks { swapped.into_iter().collect() } else { swapped.into_iter().rev().collect() };
+        let g: Vec<(Decimal, Decimal)> = got_side.iter().map(|l| (l.price, l.amount)).collect();
+        if g == sw {
+            out.push(("C05/levels/long-update/repeated-price-applied-out-of-list-order".to_string(), txt()));
+        } else {
+            out.extend(v.into_iter().map(|(s, _)| (s, txt())));
+        }
+    }
+    hash_of(&St(book))
+}
+
+fn raw_amt(c: &LongCase, k: usize) -> &'static str {
+    ["0", "5", "7"][if k == 0 { c.amounts.0 } else { c.amounts.1 } as usize]
+}
+
+fn long_cases(ns: &[usize]) -> Vec<LongCase> {
+    let mut v = Vec::new();
+    for asks in [false, true] {
+        for &n in ns {
+            for i in 0..n {
+                for j in (i + 1)..n {
+                    for order in 0..3u8 {
+                        for amounts in [(1u8, 2u8), (2, 0), (0, 1)] {
+                            for preloaded in [false, true] {
+                                v.push(LongCase { asks, n, i, j, order, amounts, preloaded });
+                            }
+                        }
+                    }
+                }
+            }
+        }
+    }
+    v
+}
+
+// ------------------------------------------------------------------------------------------------
+
+static PANICS: std::sync::atomic::AtomicU64 = std::sync::atomic::AtomicU64::new(0);
+
+pub fn run(ctx: &Ctx) -> Outcome {
+    // panics of the code under test are caught and judged; print only the first few messages
+    std::panic::set_hook(Box::new(|info| {
+        if PANICS.fetch_add(1, std::sync::atomic::Ordering::Relaxed) < 3 {
+            eprintln!("panic (first 3 shown): {info}");
+        }
+    }));
+    let mut per_model = Vec::new();
+    let (mut states, mut transitions, mut max_depth, mut distinct_impl) = (0usize, 0u64, 0usize, 0usize);
+    let mut samples = Vec::new();
+    let labels: Vec<&str> = ctx.tier.pick(vec!["p3", "scales"], vec!["p3", "scales", "p4"]);
+    for label in &labels {
+        let m = M::by_label(label);
+        let t = std::time::Instant::now();
+        let st = bfs_stream(ctx, &m, label, 200_000);
+        eprintln!("C05 bfs {label}: {} states {} transitions {:.1}s", st.states, st.transitions, t.elapsed().as_secs_f64());
+        if !st.fixpoint {
+            // cannot happen: successors are always well-formed books over the finite alphabet
+            eprintln!("MACHINERY: C05 BFS {label} did not reach its fixpoint");
+            std::process::exit(2);
+        }
+        states += st.states;
+        transitions += st.transitions;
+        max_depth = max_depth.max(st.max_depth);
+        distinct_impl += st.distinct_impl_states;
+        per_model.push(json!({
+            "label": label, "actions_per_state": m.acts.len(), "states": st.states, "transitions": st.transitions,
+            "max_depth": st.max_depth, "frontier_sizes": st.frontier_sizes, "fixpoint": st.fixpoint,
+            "oracle_violation_steps": st.oracle_violation_steps,
+        }));
+        samples.extend(st.samples);
+    }
+    // layer 2
+    let mgr = MgrModel::new();
+    let mgr_len = ctx.tier.pick(4, 5);
+    let t = std::time::Instant::now();
+    let ms = seq::run(ctx, &mgr, "manager", mgr_len);
+    eprintln!("C05 manager: {} sequences {:.1}s", ms.sequences, t.elapsed().as_secs_f64());
+    // layer 3
+    let ns: Vec<usize> = ctx.tier.pick((2..=40).collect(), (2..=48).chain([64, 65, 100]).collect());
+    let cases = long_cases(&ns);
+    let long_distinct = Distinct::default();
+    let long_fail: std::sync::Mutex<BTreeMap<usize, u64>> = Default::default();
+    cases.par_iter().for_each(|c| {
+        let mut out = Vec::new();
+        match std::panic::catch_unwind(std::panic::AssertUnwindSafe(|| long_check(c, &mut out))) {
+            Ok(h) => long_distinct.add_hash(h),
+            Err(_) => out.push(("C05/panic/long-update".to_string(), format!("panic on {c:?}"))),
+        }
+        if !out.is_empty() {
+            *long_fail.lock().unwrap().entry(c.n).or_insert(0) += 1;
+        }
+        for (sig, detail) in out {
+            ctx.violate(sig, detail, json!({"engine": "long-update", "case": c}));
+        }
+    });
+    let long_fail: Vec<Value> = long_fail.into_inner().unwrap().into_iter().map(|(n, k)| json!({"levels": n, "failing_cases": k})).collect();
+    Outcome {
+        level: "model_checking",
+        coverage: json!({
+            "states": states,
+            "transitions": transitions,
+            "traces_validated_against_impl": transitions,
+            "max_depth": max_depth,
+            "fixpoint_reached": true,
+            "exhaustive": true,
+            "distinct_impl_states": distinct_impl,
+            "per_model": per_model,
+            "samples": samples,
+            "manager_layer": {"max_len": mgr_len, "sequences": ms.sequences, "steps": ms.steps, "distinct_final": ms.distinct_final,
+                              "alphabet": "Reconnecting + 5 events x {instrument 0, instrument 1, unconfigured key}"},
+            "long_update_layer": {"evaluations": cases.len(), "distinct_final_books": long_distinct.len(), "lengths": ns, "lengths_with_failures": long_fail},
+            "rule": "BFS to fixpoint; state = the real OrderBook; every transition = OrderBook::update of one Snapshot/Update event built by OrderBook::new from an unsorted level list; compared with BTreeMap<price,amount> per side (levels+order, sequence, mid, vw-mid, snapshot(0..=5))",
+        }),
+        assumptions: vec![
+            "snapshots are well-formed (distinct prices, positive amounts); duplicates and zero amounts only inside updates".into(),
+            "a price repeated inside one update is applied in list order (the later entry wins), as a map fed the list would".into(),
+            "one-sided book: mid / volume-weighted mid may be None or the only best price (the statement does not define it); volume weighting: either convention accepted".into(),
+            "time_engine is not judged (not mentioned by the statement)".into(),
+            "events are built with OrderBook::new as every connector does; value alphabets avoid Decimal overflow".into(),
+        ],
+    }
+}
+
+pub fn replay(ctx: &Ctx, case: &Value) {
+    let viols = match case["engine"].as_str().unwrap_or("bfs") {
+        "bfs" => bfs::replay(&M::by_label(case["label"].as_str().unwrap_or("p3")), case),
+        "seq" => seq::replay(&MgrModel::new(), case),
+        "long-update" => {
+            let c: LongCase = serde_json::from_value(case["case"].clone()).expect("replay: bad long-update case");
+            let mut out = Vec::new();
+            long_check(&c, &mut out);
+            for (s, d) in &out {
+                println!("    {s}: {d}");
+            }
+            out
+        }
+        other => panic!("C05 replay: unknown engine {other}"),
+    };
+    for (sig, detail) in viols {
+        ctx.violate(sig, detail, case.clone());
+    }
 }
